@@ -98,6 +98,7 @@ class Scene:
         self.kind = kind  # primitive type of the payload data: "float" | "text"
         if plain_child:  # a non-concatenated child next to the holes (Concatenator.copy treats it separately)
             self.group.add_comment("a plain child of the drillhole group")
+        self.plain_uid = self.group.comments.uid if self.group.comments is not None else None
         self.hole_uid = {}  # slot -> uid
         self.holes = {}  # slot -> live python object
         self.data_sid = {}  # braced uid string -> specification id (int) of a data set
@@ -293,6 +294,39 @@ class Scene:
             self.ws.remove_entity(found[0])
         else:
             hole.remove_children([found[0]])
+
+    def _RemoveGroup(self, **_):
+        group = self.group
+        self.holes = {}
+        self.ws.remove_entity(group)
+
+    def observe_removed(self):
+        """After RemoveGroup: problems (empty = the group, its holes, their data and its plain child are gone)."""
+        from geoh5py import Workspace
+        from . import h5snap
+        problems = []
+        gid = _brace(self.group_uid)
+        pid = _brace(self.plain_uid) if self.plain_uid is not None else None
+
+        def raw(handle, when):
+            root = handle[list(handle)[0]]
+            if gid in root["Groups"]:
+                problems.append(f"{when}: Groups/{gid} still in the file")
+            if pid is not None and pid in root["Data"]:
+                problems.append(f"{when}: flat node Data/{pid} of the group's plain child still in the file")
+            problems.extend(f"{when}: {p}" for p in h5snap.wellformed(h5snap.snapshot(handle)))
+
+        if any(c.uid == self.group_uid for c in self.ws.root.children):
+            problems.append("the group is still a child of the root")
+        raw(self.ws.geoh5, "open")
+        self.ws.close()
+        import h5py
+        with h5py.File(self.path, "r") as handle:
+            raw(handle, "closed")
+        self.ws = Workspace(self.path)
+        if self.ws.get_entity(self.group_uid)[0] is not None:
+            problems.append("the group is back after re-open")
+        return problems
 
     def _Protect(self, h, name="", **_):
         (self.hole(h) if name == "" else self._first_data(h, name)).allow_delete = False
